@@ -73,13 +73,18 @@ def to_whoosh(ast):
 def parse_dt(s):
     if s is None:
         return None
-    return datetime.datetime.strptime(s, "%Y-%m-%dT%H:%M:%S.%f")
+    # (not strptime/strftime: %Y is not zero-padded for years below 1000 on glibc)
+    d, t = s.split("T")
+    y, mo, da = d.split("-")
+    hms, us = t.split(".")
+    h, mi, se = hms.split(":")
+    return datetime.datetime(int(y), int(mo), int(da), int(h), int(mi), int(se), int(us))
 
 
 def fmt_dt(d):
     if d is None:
         return None
-    return d.strftime("%Y-%m-%dT%H:%M:%S.%f")
+    return "%04d-%02d-%02dT%02d:%02d:%02d.%06d" % (d.year, d.month, d.day, d.hour, d.minute, d.second, d.microsecond)
 
 
 # -- documented edit distance (restricted Damerau-Levenshtein, as in
